@@ -40,6 +40,9 @@ var c15CTs = []c15CT{
 	{"multipart/form-data; boundary=xyz", true, true, "multipart/form-data"},
 	{"text/plain", true, true, "text/plain"},
 	{"application/unknown+json", true, true, "application/unknown+json"},
+	{"application/json-patch+json", true, true, "application/json-patch+json"},
+	{"application/jsonx; charset=utf-8", true, true, "application/jsonx"},
+	{"application/x-www-form-urlencoded-v2", true, true, "application/x-www-form-urlencoded-v2"},
 	// spellings the statement does not cover: run for panic-freedom only
 	{"APPLICATION/JSON", true, false, ""},
 	{" application/json", true, false, ""},
